@@ -221,10 +221,12 @@ PENDING_REASON = "check not built yet in this round (see DESIGN.md §9 for the c
 # what the second build session added to each machine (DESIGN.md §10.10)
 EXTRA = {
  "C09": "The last gradient stop as well as the first, interior stop positions; generated decks among the corpus objects."
-        " Every other re-open reads the saved file respelled (lower-case hex colours, true / false booleans); a stacked bar plot.",
+        " Every other re-open reads the saved file respelled (lower-case hex colours, true / false booleans); a stacked bar plot."
+        " A point's marker on a series whose c:dPt elements are out of index order.",
  "C05": "Derived flows: a string already stored on a layout / notes-master placeholder when add_slide / notes_slide clones it.",
  "C10": "The hand-written adders of CT_GroupShape (add_autoshape ... add_textbox) are declarations read off their behaviour (op Hand) and judged like the generated inserters; every call is repeated on siblings that hold descendants named like the children."
-        " Hand-written get-or-add methods keyed by an index child (dPt / dLbl for a point) with keyed tags (op HandGetOrAdd).",
+        " Hand-written get-or-add methods keyed by an index child (dPt / dLbl for a point) with keyed tags (op HandGetOrAdd)."
+        " Every call also on the same parent written with other namespace prefixes.",
  "C01": "Parts of the builder may be image-typed (the content type selects the part class python-pptx builds; several parts may hold the same bytes)."
         " External targets in several spellings (escaped reserved characters, lower-case escapes, back-slashes)."
         " Type pool includes an unknown +xml type with an opaque payload and a macro-enabled embedded workbook type.",
@@ -232,17 +234,20 @@ EXTRA = {
         "chosen by the model, layout removal in every order relative to picture additions (an image part lives while a relationship reaches it)."
         " Also a deck in which generic parts (custom XML item, theme) alone reach further parts (gengeneric), a deck with relationship ids that are not rId<N>, ten pictures of one format."
         " A deck whose part numbering has a gap (gengap)."
-        " Every save of a history goes to one stream the caller keeps.",
+        " Every save of a history goes to one stream the caller keeps."
+        " A two-master deck (a layout of the other master is refused); notes numbering that does not follow slide position.",
  "C03": "Further hosts (mbt/checks/c03_hosts.py): the histories of the Table, TextBody, Geometry (connector / group / freeform) and Layout machines are "
         "replayed by their own drivers with the XSD monitor switched on and judged by the same clauses (a call that returned: AllPartsValid; a call that "
         "raised: RejectedKeepsValidity)."
         " Every single catalogued assignment also on the objects of a generated deck with 3-D bar / line / pie charts.",
  "C04": "Also: assigning at frame / paragraph level exactly the string that level reads at the moment (reassign actions), on prior bodies whose runs "
         "hold newline / tab characters."
-        " A text-frame object obtained before the calls is kept and read after every step (KeptObjectAgrees).",
+        " A text-frame object obtained before the calls is kept and read after every step (KeptObjectAgrees)."
+        " A ten-paragraph string at every site.",
  "C06": "The allocator machines (Alloc.tla) lay the pre-existing identifiers down in ascending and in descending DOCUMENT order: the allocators are functions of the set."
         " Shape ids carried by members of a group / an AlternateContent fallback; allocation inside a group."
-        " One freeform builder converted again.",
+        " One freeform builder converted again."
+        " Notes numbering that does not follow slide position.",
  "C07": "The chart-data object handed to replace_data is also STAGED (one object, rendered into a throw-away chart when half built - left spine of "
         "the category tree, first series / point - then completed): nothing an earlier rendering computed may be remembered."
         " The multi-plot corpus charts are replaced with every series count from one to more than they hold."
@@ -258,7 +263,8 @@ EXTRA = {
         "out of order with a gap (slide3, slide1, slide4) with notes pages."
         " A slide with content of other producers (mc:AlternateContent on the slide and in a group, a p:nvPr extension list)."
         " A slide-number field whose text is not the slide's position."
-        " Chart and axis titles linked to a worksheet cell.",
+        " Chart and axis titles linked to a worksheet cell."
+        " Membership queries with a non-member.",
  "C13": "Layout placeholders carried by p:pic / p:graphicFrame (filled in Slide Master view); a deck with out-of-order slide part names; after a re-open "
         "every slide is still there in order with its content (ReopenKeepsSlides)."
         " The layout's placeholder elements are removed / reordered between two slide additions (dropPh / movePh): a slide mirrors the layout as it is then."
@@ -270,7 +276,8 @@ EXTRA = {
         "next_image_partname and keeps the live names in the state); every picture added is re-read after every step and from the re-opened file; "
         "one file path overwritten with images of identical byte length."
         " Images with an EXIF orientation."
-        " A stream whose cursor is mid-way.",
+        " A stream whose cursor is mid-way."
+        " Pictures added into a resized group.",
  "C16": "Corpus faults include two relationships to one absent part and an absent part that several relationships target."
         " An unreferenced member whose name differs only in letter case from a reachable part, stored after / before it.",
  "C17": "Connectors also start from frames as a document holds them (zero extent with the flip attribute set); a freeform pen may be converted while "
@@ -278,7 +285,8 @@ EXTRA = {
         " Connectors loaded turned by 180 degrees.",
  "C18": "W3CDTF fractions of 7, 9 and 12 digits; a text class that looks like an OOXML character escape."
         " Initial package written by another producer (mixed-content cp:keywords, xml:lang, other child order)."
-        " Revisions beyond 2^31.",
+        " Revisions beyond 2^31."
+        " A core.xml whose root declares only the namespaces it uses.",
  "C19": "Accessor family: index 0, zero-padded digits, 9 / 10 / 100, long stems, 2^31-1."
         " Names with two consecutive periods."
         " Names outside ASCII (combining accent, precomposed)."
